@@ -4,26 +4,35 @@
 set -u
 cd /verif
 OUT=/verif/seeded/MATRIX.json
-echo "{" > $OUT.tmp
-first=1
-for d in seeded/C*-*/; do
+WORKERS=${WORKERS:-8}
+RES=$(mktemp -d /tmp/matrixresXXXXXX)
+one() {
+  d=$1; RES=$2
   id=$(basename $d)
   S=$(mktemp -d /tmp/matrixXXXXXX)
   rsync -a --exclude .git /repo/ $S/repo/
-  mkdir -p $S/verif; cp KNOWN_FINDINGS.jsonl $S/verif/
+  mkdir -p $S/verif; cp /verif/KNOWN_FINDINGS.jsonl $S/verif/
   if ! (cd $S/repo && patch -p1 -s --no-backup-if-mismatch < /verif/$d/patch.diff >/dev/null 2>&1); then
     res='"PATCH-DOES-NOT-APPLY"'
   else
-    ./bin/cometlint -prop all -repo $S/repo -verif $S/verif > $S/out.txt 2>&1
+    /verif/bin/cometlint -prop all -repo $S/repo -verif $S/verif > $S/out.txt 2>&1
     props=$(grep -oE "^VIOLATION property=C[0-9]+" $S/out.txt | sed 's/VIOLATION property=//' | sort -u | paste -sd, | sed 's/\([^,]*\)/"\1"/g')
     rules=$(grep -E "^(VIOLATION|UNDECIDED|UNRESOLVED|FLOOR) C" $S/out.txt | awk '{print $2}' | cut -d: -f1 | sort -u | paste -sd, | sed 's/\([^,]*\)/"\1"/g')
     res="{\"properties\":[${props}],\"rules\":[${rules}]}"
   fi
+  printf ' "%s": %s' "$id" "$res" > $RES/$id
+  rm -rf $S
+}
+export -f one
+ls -d seeded/C*-*/ | xargs -P $WORKERS -I{} bash -c 'one {} '$RES
+echo "{" > $OUT.tmp
+first=1
+for f in $(ls $RES | sort -V); do
   [ $first -eq 1 ] || echo "," >> $OUT.tmp
   first=0
-  printf ' "%s": %s' "$id" "$res" >> $OUT.tmp
-  rm -rf $S
+  cat $RES/$f >> $OUT.tmp
 done
+rm -rf $RES
 echo "" >> $OUT.tmp; echo "}" >> $OUT.tmp
 mv $OUT.tmp $OUT
 python3 - <<'PY'
